@@ -132,138 +132,158 @@ func TestC06(t *testing.T) {
 		}
 	}
 	names = nl
+	// second scope: a literal that begins with '$' ('$' is only special as the first character of a
+	// topic, so strings that begin with it are left out), up to three levels
+	noDollarFirst := func(l []string) []string {
+		var o []string
+		for _, x := range l {
+			if x != "" && x[0] != '$' {
+				o = append(o, x)
+			}
+		}
+		return o
+	}
+	filtersB := noDollarFirst(levelSeqs([]string{"a", "$x", "", "+", "#"}, 3))
+	namesB := noDollarFirst(levelSeqs([]string{"a", "$x", ""}, 3))
+	scopes := [][2][]string{{filters, names}, {filtersB, namesB}}
 	if out.Only("c06/exhaustive") {
-		out.Begin("c06/exhaustive", 0, map[string]interface{}{"filters": len(filters), "names": len(names), "batch": batch})
+		out.Begin("c06/exhaustive", 0, map[string]interface{}{"filters": len(filters), "names": len(names), "filters_dollar_scope": len(filtersB), "names_dollar_scope": len(namesB), "batch": batch})
 		type subT struct{ id int }
-		for fi, f := range filters {
-			if !mine(fi) {
-				continue
+		for si, sc := range scopes {
+			filters, names := sc[0], sc[1]
+			if si == 1 {
+				out.Count("c06.ex.dollar_scope_filters", int64(len(filters)))
 			}
-			valid := spec.ValidFilter(f)
-			subQ := byte(fi % 3)
-			p := topics.NewMemProvider()
-			sub := &subT{fi}
-			var granted byte
-			var err error
-			if guard("c06", map[string]string{"filter": f}, func() { granted, err = p.Subscribe([]byte(f), subQ, sub) }) {
-				continue
-			}
-			out.Count("c06.ex.filters", 1)
-			if valid != (err == nil) {
-				out.Violation("c06:filter-validity", fmt.Sprintf("filter %q: valid per 4.7 = %v, Subscribe error = %v", f, valid, err), map[string]string{"filter": f})
-			}
-			if err == nil && granted != subQ {
-				out.Violation("c06:granted", fmt.Sprintf("filter %q: granted %d for requested %d", f, granted, subQ), nil)
-			}
-			var subs []interface{}
-			var qoss []byte
-			for _, n := range names {
-				for q := byte(0); q < 3; q++ {
-					var serr error
-					if guard("c06", map[string]string{"filter": f, "name": n}, func() { serr = p.Subscribers([]byte(n), q, &subs, &qoss) }) {
-						continue
-					}
-					out.Count("c06.ex.pairs", 1)
-					got := len(subs) > 0
-					if serr != nil {
-						out.Violation("c06:subscribers-error", fmt.Sprintf("Subscribers(%q) failed: %v", n, serr), map[string]string{"filter": f, "name": n})
-						continue
-					}
-					if !valid || err != nil {
+			for fi, f := range filters {
+				if !mine(fi) {
+					continue
+				}
+				valid := spec.ValidFilter(f)
+				subQ := byte(fi % 3)
+				p := topics.NewMemProvider()
+				sub := &subT{fi}
+				var granted byte
+				var err error
+				if guard("c06", map[string]string{"filter": f}, func() { granted, err = p.Subscribe([]byte(f), subQ, sub) }) {
+					continue
+				}
+				out.Count("c06.ex.filters", 1)
+				if valid != (err == nil) {
+					out.Violation("c06:filter-validity", fmt.Sprintf("filter %q: valid per 4.7 = %v, Subscribe error = %v", f, valid, err), map[string]string{"filter": f})
+				}
+				if err == nil && granted != subQ {
+					out.Violation("c06:granted", fmt.Sprintf("filter %q: granted %d for requested %d", f, granted, subQ), nil)
+				}
+				var subs []interface{}
+				var qoss []byte
+				for _, n := range names {
+					for q := byte(0); q < 3; q++ {
+						var serr error
+						if guard("c06", map[string]string{"filter": f, "name": n}, func() { serr = p.Subscribers([]byte(n), q, &subs, &qoss) }) {
+							continue
+						}
+						out.Count("c06.ex.pairs", 1)
+						got := len(subs) > 0
+						if serr != nil {
+							out.Violation("c06:subscribers-error", fmt.Sprintf("Subscribers(%q) failed: %v", n, serr), map[string]string{"filter": f, "name": n})
+							continue
+						}
+						if !valid || err != nil {
+							if got {
+								out.Violation("c06:invalid-filter-side-effect", fmt.Sprintf("rejected filter %q left a subscription matching %q", f, n), nil)
+							}
+							continue
+						}
+						if sig := matchVerdict("subscribers", f, n, got); sig != "" {
+							out.Violation(sig, fmt.Sprintf("filter %q vs name %q: Subscribers matched=%v, MQTT 4.7 says %v", f, n, got, !got), map[string]string{"filter": f, "name": n})
+							continue
+						}
 						if got {
-							out.Violation("c06:invalid-filter-side-effect", fmt.Sprintf("rejected filter %q left a subscription matching %q", f, n), nil)
+							wq := q
+							if subQ < wq {
+								wq = subQ
+							}
+							if len(subs) != 1 || subs[0] != interface{}(sub) || qoss[0] != wq {
+								out.Violation("c06:subscriber-entry", fmt.Sprintf("filter %q name %q pubqos %d subqos %d: got %d entries qos %v", f, n, q, subQ, len(subs), qoss), nil)
+							}
 						}
-						continue
-					}
-					if sig := matchVerdict("subscribers", f, n, got); sig != "" {
-						out.Violation(sig, fmt.Sprintf("filter %q vs name %q: Subscribers matched=%v, MQTT 4.7 says %v", f, n, got, !got), map[string]string{"filter": f, "name": n})
-						continue
-					}
-					if got {
-						wq := q
-						if subQ < wq {
-							wq = subQ
+						if q == 0 {
+							out.Class(fmt.Sprintf("ex/%s|%s|%v", shape(f), shape(n), got))
 						}
-						if len(subs) != 1 || subs[0] != interface{}(sub) || qoss[0] != wq {
-							out.Violation("c06:subscriber-entry", fmt.Sprintf("filter %q name %q pubqos %d subqos %d: got %d entries qos %v", f, n, q, subQ, len(subs), qoss), nil)
-						}
-					}
-					if q == 0 {
-						out.Class(fmt.Sprintf("ex/%s|%s|%v", shape(f), shape(n), got))
 					}
 				}
 			}
-		}
-		// retained: all names without empty levels stored at once (cross-name
-		// interference), every valid filter queried
-		if mine(0) {
-			p := topics.NewMemProvider()
-			var plain []string
-			for _, n := range names {
-				if !hasEmptyLevel(n) {
-					plain = append(plain, n)
+			// retained: all names without empty levels stored at once (cross-name
+			// interference), every valid filter queried
+			if mine(0) {
+				p := topics.NewMemProvider()
+				var plain []string
+				for _, n := range names {
+					if !hasEmptyLevel(n) {
+						plain = append(plain, n)
+					}
+				}
+				for i, n := range plain {
+					if err := p.Retain(mkRetained(n, byte(i%3), []byte(n+"!"))); err != nil {
+						out.Violation("c06:retain-error", fmt.Sprintf("Retain(%q): %v", n, err), nil)
+					}
+				}
+				var msgs []*message.PublishMessage
+				for _, f := range filters {
+					if !spec.ValidFilter(f) {
+						continue
+					}
+					msgs = msgs[:0]
+					var rerr error
+					if guard("c06", map[string]string{"filter": f}, func() { rerr = p.Retained([]byte(f), &msgs) }) {
+						continue
+					}
+					if rerr != nil {
+						out.Violation("c06:retained-error", fmt.Sprintf("Retained(%q): %v", f, rerr), nil)
+						continue
+					}
+					got := map[string]int{}
+					for _, m := range msgs {
+						got[string(m.Topic())]++
+						if string(m.Payload()) != string(m.Topic())+"!" {
+							out.Violation("c06:retained-payload", fmt.Sprintf("retained %q has payload %q", m.Topic(), m.Payload()), nil)
+						}
+					}
+					for _, n := range plain {
+						out.Count("c06.ex.retained_pairs", 1)
+						if got[n] > 1 {
+							out.Violation("c06:retained-duplicate", fmt.Sprintf("Retained(%q) returned %q %d times", f, n, got[n]), nil)
+						}
+						if sig := matchVerdict("retained", f, n, got[n] > 0); sig != "" {
+							out.Violation(sig, fmt.Sprintf("filter %q vs retained name %q: returned=%v, MQTT 4.7 says %v", f, n, got[n] > 0, !(got[n] > 0)), map[string]string{"filter": f, "name": n})
+						}
+					}
 				}
 			}
-			for i, n := range plain {
-				if err := p.Retain(mkRetained(n, byte(i%3), []byte(n+"!"))); err != nil {
+			// per-pair retained check on a fresh provider per name (all names)
+			for ni, n := range names {
+				if !mine(ni) {
+					continue
+				}
+				p := topics.NewMemProvider()
+				if err := p.Retain(mkRetained(n, 1, []byte("v"))); err != nil {
 					out.Violation("c06:retain-error", fmt.Sprintf("Retain(%q): %v", n, err), nil)
-				}
-			}
-			var msgs []*message.PublishMessage
-			for _, f := range filters {
-				if !spec.ValidFilter(f) {
 					continue
 				}
-				msgs = msgs[:0]
-				var rerr error
-				if guard("c06", map[string]string{"filter": f}, func() { rerr = p.Retained([]byte(f), &msgs) }) {
-					continue
-				}
-				if rerr != nil {
-					out.Violation("c06:retained-error", fmt.Sprintf("Retained(%q): %v", f, rerr), nil)
-					continue
-				}
-				got := map[string]int{}
-				for _, m := range msgs {
-					got[string(m.Topic())]++
-					if string(m.Payload()) != string(m.Topic())+"!" {
-						out.Violation("c06:retained-payload", fmt.Sprintf("retained %q has payload %q", m.Topic(), m.Payload()), nil)
+				var msgs []*message.PublishMessage
+				for _, f := range filters {
+					if !spec.ValidFilter(f) {
+						continue
 					}
-				}
-				for _, n := range plain {
+					msgs = msgs[:0]
+					if guard("c06", map[string]string{"filter": f, "name": n}, func() { p.Retained([]byte(f), &msgs) }) {
+						continue
+					}
+					if sig := matchVerdict("retained", f, n, len(msgs) > 0); sig != "" {
+						out.Violation(sig, fmt.Sprintf("filter %q vs single retained name %q: returned=%v", f, n, len(msgs) > 0), map[string]string{"filter": f, "name": n})
+					}
 					out.Count("c06.ex.retained_pairs", 1)
-					if got[n] > 1 {
-						out.Violation("c06:retained-duplicate", fmt.Sprintf("Retained(%q) returned %q %d times", f, n, got[n]), nil)
-					}
-					if sig := matchVerdict("retained", f, n, got[n] > 0); sig != "" {
-						out.Violation(sig, fmt.Sprintf("filter %q vs retained name %q: returned=%v, MQTT 4.7 says %v", f, n, got[n] > 0, !(got[n] > 0)), map[string]string{"filter": f, "name": n})
-					}
 				}
-			}
-		}
-		// per-pair retained check on a fresh provider per name (all names)
-		for ni, n := range names {
-			if !mine(ni) {
-				continue
-			}
-			p := topics.NewMemProvider()
-			if err := p.Retain(mkRetained(n, 1, []byte("v"))); err != nil {
-				out.Violation("c06:retain-error", fmt.Sprintf("Retain(%q): %v", n, err), nil)
-				continue
-			}
-			var msgs []*message.PublishMessage
-			for _, f := range filters {
-				if !spec.ValidFilter(f) {
-					continue
-				}
-				msgs = msgs[:0]
-				if guard("c06", map[string]string{"filter": f, "name": n}, func() { p.Retained([]byte(f), &msgs) }) {
-					continue
-				}
-				if sig := matchVerdict("retained", f, n, len(msgs) > 0); sig != "" {
-					out.Violation(sig, fmt.Sprintf("filter %q vs single retained name %q: returned=%v", f, n, len(msgs) > 0), map[string]string{"filter": f, "name": n})
-				}
-				out.Count("c06.ex.retained_pairs", 1)
 			}
 		}
 		out.Sample("c06.exhaustive", 1, map[string]interface{}{"first_filters": filters[:8], "first_names": names[:8], "n_filters": len(filters), "n_names": len(names)})
